@@ -53,3 +53,46 @@ claim(
     "exact evaluation of tables in Q / Q(sqrt d); constant folding of the factory; polynomial support analysis of det J",
     "DESIGN.md section 3, C07",
 )
+
+claim(
+    "C10", "other",
+    "Equality of two solves is not decidable statically; decided are necessary conditions that each correspond to a confirmed (and repaired) defect class: the block matrix applied on the right of the beam N/B matrices is the global->local frame (interpreted with symbolic axes: rows must be i, j, i x j) at all five product sites; Get_Pmat is, entry by entry, the Kelvin-Mandel / Voigt matrix of eps -> p eps p^T as a polynomial identity in the entries of p; Apply_Pmat's generated einsum spells P M P^T / P^T M P for all rank combinations; the matrix is invariant under rescaling of the axes and exactly orthogonal for rational orthogonal axes of non-unit length.",
+    "Loads and constraints transformed by the user, hyperelastic/thermal frame indifference and the equality of transformed solutions are not decided.",
+    "interpretation of frame / change-of-basis code on symbolic axes; polynomial identities; exact evaluation at rational rotations",
+    "DESIGN.md section 3, C10",
+)
+claim(
+    "C11", "proof",
+    "The stiffness and compliance literals of the transversely isotropic and orthotropic laws are interpreted entry by entry as rational functions of the moduli and their product is the identity by normal form (for all moduli); the isotropic plane-stress law is the Schur complement of the 3-D law identically in (E, v) and plane strain its in-plane block; the 2-D reduction takes the [0,1,5] block of the compliance (plane stress) or stiffness (plane strain); notation flags reach the result (differential interpretation); lazy-update typestate (descriptor -> Need_Update -> getter updates and clears) is structural.",
+    "Positive-definiteness over the admissible parameter set and the accuracy of np.linalg.inv are not decided. Rotation of the tensor is covered by C10 (Get_Pmat / Apply_Pmat).",
+    "AST -> rational functions, identity by cross-multiplication; differential interpretation for flag influence; typestate rules",
+    "DESIGN.md section 3, C11",
+)
+claim(
+    "C12", "other",
+    "The protocol dispatch of FeArray depends on run-time shapes and is not decided. Decided: closed-form Det/Inv/Trace/Transpose/TensorProd equal the tensor operation for symbolic entries (polynomial / rational identities); generated and literal einsum subscripts folded over their finite rank domain equal the contraction they are for; reducer tables agree and negative axes are handled; matrix coefficients are broadcast with tensor_ndim=2 at every call site; a FeArray subscripted with two scalar leading indices is not used in arithmetic without np.asarray.",
+    "numpy's __array_ufunc__/__array_function__ dispatch, alignment on actual shapes (Ne == nPg == dim collisions) is not decided by this check.",
+    "interpretation of closed forms on symbolic matrices; finite-domain folding of subscript generators; call-site rules",
+    "DESIGN.md section 3, C12",
+)
+claim(
+    "C16", "other",
+    "Every Result() dispatcher (7 simulation classes, each dimension / dof configuration; 358 advertised names) is interpreted on a labelled two-node stub: names folded out of Results_Available() are pushed through the if/elif chain; a name that falls through, raises or indexes past its array is a violation; component results must return the right column (x->0,y->1,z->2) of the right field (u/v/a). The strain/stress extractor is interpreted on a symbolic Kelvin vector (components unscaled, von Mises^2 == 3/2 s:s, 2-D == 3-D at zz=yz=xz=0). Known findings: the Beam result table (F8).",
+    "Numerical values, reactions and the energy identity beyond matching quadrature/law/thickness wiring are not decided.",
+    "finite-domain constant folding of string dispatch tables + label interpretation; polynomial identity for von Mises",
+    "DESIGN.md section 3, C16",
+)
+claim(
+    "C17", "proof",
+    "Calc_C is interpreted for all 14 SplitType values (2-D and 3-D) in a non-commutative matrix algebra (atoms C, S, projP, projM, IxI, sqrtC; scalar selectors Rp, Rm; relations C.S = Id, sqrtC.isqrtC = Id). With projM = Id - projP and Rm = 1 - Rp the sum cP + cM is selector-free and equals C (lambda IxI + 2 mu Id for Miehe/Amor) by normal form: the positive and negative parts add up to the undamaged stress and energy for every strain state at once. Structural rules: projM and the last eigen-projector are defined as complements; (Ne, nPg) masks must be applied with both axes (known finding F10: 3-D projector cases are classified per element); the history field is the point-wise maximum with committed writers only; regularisation tables are exhaustive.",
+    "Agreement of the closed-form eigen-projectors with an eigendecomposition, finiteness at degenerate states and monotonicity of the solved damage are not decided.",
+    "interpretation in a non-commutative polynomial algebra; mask-rank dataflow; writer sets",
+    "DESIGN.md section 3, C17",
+)
+claim(
+    "C18", "proof",
+    "For each built-in hyperelastic law (NeoHookean, MooneyRivlin, CiarletGeymonat, SaintVenantKirchhoff, HolzapfelOgden) the AST of Compute_W / Compute_dWde / Compute_d2Wde is interpreted into the energy as an expression in the invariants and the assembled stress / tangent as linear forms over the tensor atoms dIk/dC, d2Ik/dC2, dIi/dC (x) dIj/dC; every coefficient is compared with the symbolic derivative of W (absent terms must have a zero derivative, or a tensor that _state.py defines as zero). Reference state: W = 0 and zero stress at C = I. The laws read the state only through invariants of C (objectivity by construction).",
+    "sympy (tooling venv) is used as rewriting engine, cross-checked by 60-digit evaluation at random rational points where the normal form is not reached. Tensor derivatives of the invariants (_state.py), non-linear operators, discrete energy conservation and AutoDiff laws are not decided.",
+    "AST -> symbolic expressions; derivative identities by normal form (exp-log-rational powers, I3 = t^6)",
+    "DESIGN.md section 3, C18",
+)
